@@ -11,6 +11,13 @@ CHECKS = {
             "real": ["include/oneapi/tbb/parallel_reduce.h, parallel_scan.h, parallel_sort.h + scheduler"]},
     "C07": {"scenarios": ["c07"], "quick_budget_s": 50, "thorough_budget_s": 900,
             "real": ["include/oneapi/tbb/parallel_pipeline.h, src/tbb/parallel_pipeline.cpp + scheduler"]},
+    "C10": {"scenarios": ["c10"], "quick_budget_s": 45, "thorough_budget_s": 600,
+            "real": ["include/oneapi/tbb/concurrent_hash_map.h (header-only) incl. lazy rehashing, accessor locks"]},
+    "C11": {"scenarios": ["c11"], "quick_budget_s": 45, "thorough_budget_s": 600,
+            "real": ["include/oneapi/tbb/concurrent_vector.h, detail/_segment_table.h"],
+            "assumptions": ["'index-to-segment arithmetic is a bijection for every index' is a pure function of the index: exercised, not decided", "sizes >= 2^31 / 2^32 are covered by a native reproducer of the fixed defect only, not inside the simulator"]},
+    "C13": {"scenarios": ["c13"], "quick_budget_s": 40, "thorough_budget_s": 600,
+            "real": ["include/oneapi/tbb/concurrent_priority_queue.h, detail/_aggregator.h"]},
     "C08": {"scenarios": ["c08"], "quick_budget_s": 45, "thorough_budget_s": 600,
             "real": ["include/oneapi/tbb/{spin,queuing,}_mutex.h, {spin_rw,queuing_rw,rw}_mutex.h, src/tbb/queuing_rw_mutex.cpp, rtm_mutex.cpp, rtm_rw_mutex.cpp (fallback paths)"],
             "assumptions": ["speculative (RTM) variants run their non-transactional fallback paths only"]},
